@@ -14,6 +14,10 @@
    A commit that finds [manifestFailed] writes a FRESH manifest: one record holding the snapshot of the
    memory state plus the committed edit ([collapse]), installed by the atomic switch of CURRENT; the old
    manifest file, whatever its tail, is then dead.
+   An errored journal record (written whole although the write or its Sync failed) was never applied to the
+   buffer: the table flushed from its journal lacks it and a buffer holding nothing else is dropped without
+   a flush.  The model keeps such a record wherever its journal or that table is kept (so its recovery is
+   the largest possible), lists it in [f_unknown], and drops a frozen journal that holds nothing else.
    Every operation carries the result the caller sees ([fres]) and batches have three statuses:
    acknowledged ([p_acked]), issued but errored or unacknowledged ([p_issued] only; the journal records of
    errored writes are also in [f_unknown]), never on storage (in neither list).
@@ -158,6 +162,26 @@ Definition errored_only (s : fstate) : bool :=
 
 Definition pre_drop (s : fstate) (p : pstate) : pstate := if errored_only s then drop_unsynced p else p.
 
+(* OpenTransaction rotates the journal only if the live buffer holds an entry.  When the live journal's only
+   record is an errored one the buffer is empty and the transaction begins at once; the record it carries is
+   numbered below the transaction and recovery will skip it as soon as the transaction's record is durable.
+   The model forgets it when the transaction begins (a real crash before that record is durable may still
+   recover it: the one place where a real recovery can hold an errored record that the model's lacks). *)
+Definition clear_live (p : pstate) : pstate :=
+  match j_recs (p_live p) with
+  | [_] =>
+      if Nat.eqb (j_synced (p_live p)) 0 then
+        {| p_live := {| j_num := j_num (p_live p); j_recs := []; j_synced := 0 |}; p_frozen := p_frozen p; p_fedit := p_fedit p;
+           p_fseq := p_fseq p; p_man := p_man p; p_msynced := p_msynced p; p_seq := p_seq p; p_issued := p_issued p; p_acked := p_acked p |}
+      else p
+  | _ => p
+  end.
+
+Definition errored_live (s : fstate) : bool :=
+  match j_recs (p_live (f_m s)) with [x] => existsb (batch_eqb x) (f_unknown s) | _ => false end.
+
+Definition pre_txn (s : fstate) (p : pstate) : pstate := if errored_live s then clear_live p else p.
+
 Definition fstep (s : fstate) (o : fop) : fstate :=
   match o with
   | FOk (PWrite n sync) => if wr_ok s then both s (fun p => pstep p (PWrite n sync)) else s
@@ -177,8 +201,9 @@ Definition fstep (s : fstate) (o : fop) : fstate :=
   | FOk (PTxnCommit n) =>
       (* OpenTransaction, Write, Commit without error *)
       if no_txn s then
-        if f_mfail s then fresh s (PTxnCommit n) None (f_gone s)
-        else if f_pend s then s else committed s (pstep (f_p s) (PTxnCommit n)) None (f_gone s)
+        let s0 := both s (pre_txn s) in
+        if f_mfail s0 then fresh s0 (PTxnCommit n) None (f_gone s0)
+        else if f_pend s0 then s0 else committed s0 (pstep (f_p s0) (PTxnCommit n)) None (f_gone s0)
       else s
   | FOk (PSkipSeq n) => both s (fun p => pstep p (PSkipSeq n))
   | FOk (PRestart kl kf km) => restarted (pstep (f_p s) (PRestart kl kf km)) (f_unknown s)
@@ -214,9 +239,10 @@ Definition fstep (s : fstate) (o : fop) : fstate :=
   | FFreshFail => s
   | FRemoveFail => s
   | FTxnBegin n =>
-      match f_txn s, p_frozen (f_m s), j_recs (p_live (f_m s)) with
+      let s0 := both s (pre_txn s) in
+      match f_txn s, p_frozen (f_m s0), j_recs (p_live (f_m s0)) with
       | None, None, [] => if n =? 0 then s else
-          {| f_p := f_p s; f_m := f_m s; f_jfail := f_jfail s; f_mfail := f_mfail s; f_pend := f_pend s; f_txn := Some (n, false);
+          {| f_p := f_p s0; f_m := f_m s0; f_jfail := f_jfail s; f_mfail := f_mfail s; f_pend := f_pend s; f_txn := Some (n, false);
              f_unknown := f_unknown s; f_gone := f_gone s |}
       | _, _, _ => s
       end
